@@ -205,6 +205,32 @@ def calls(fam: str, a: dict) -> List[Tuple[str, List[Any], Callable[[], Any]]]:
         subs = np.array([[0] * N, [a["minsub"]] + [0] * (N - 1)]) if a["minsub"] != 0 else np.array([[0] * N, [1] + [0] * (N - 1)])
         vals = np.array([[1.0], [2.0]])
         out.append(("sptensor.__init__", [subs, vals], lambda: ttb.sptensor(subs, vals, tuple(a["shape"]))))
+    elif fam == "k_mode_arg":
+        K = mk_kt([2, 3, 2][:a["N"]], [2] * a["N"])
+        m = int(a["mode"])
+        thunk = {"normalize_wf": lambda: K.normalize(weight_factor=m), "normalize_mode": lambda: K.normalize(mode=m),
+                 "redistribute": lambda: K.redistribute(m), "arrange_wf": lambda: K.arrange(weight_factor=m)}[a["op"]]
+        out.append((f"ktensor.{a['op']}", [K], thunk))
+    elif fam == "tt_reconstruct":
+        T = ttb.ttensor(mk_dense([2, 2, 2]), [np.arange(1.0, 2 * r + 1).reshape(r, 2) for r in (3, 4, 2)])
+        ms = [int(m) for m in a["modes"]]
+        samples = [np.array([0, 1]) for _ in ms]
+        out.append(("ttensor.reconstruct", [T], lambda: T.reconstruct(samples if len(ms) > 1 else samples[0], I(ms) if len(ms) > 1 else ms[0])))
+    elif fam == "tucker_ranks":
+        X = mk_dense(a["shape"])
+        rk = [int(r) for r in a["ranks"]]
+        if a["auto"]:
+            out.append(("hosvd(ranks)", [X], lambda: ttb.hosvd(X, 0.2, verbosity=0, ranks=I(rk))))
+        else:
+            out.append(("tucker_als(ranks)", [X], lambda: ttb.tucker_als(X, I(rk), maxiters=1, printitn=0)))
+    elif fam == "als_optdims":
+        X = mk_dense([2, 3, 2][:a["N"]])
+        init = mk_kt([2, 3, 2][:a["N"]], [2] * a["N"])
+        out.append(("cp_als(optdims)", [X, init], lambda: ttb.cp_als(X, 2, maxiters=1, printitn=0, init=init, optdims=I(a["optdims"]))))
+    elif fam == "ctor_sptenmat_neg":
+        subs = np.array([[1, 1], [a["minrow"], a["mincol"]]])
+        vals = np.array([[1.0], [2.0]])
+        out.append(("sptenmat.__init__", [subs, vals], lambda: ttb.sptenmat(subs, vals, I([0]), I([1, 2]), (2, 3, 2))))
     elif fam == "als_options":
         X = mk_dense(a["shape"])
         init = mk_kt(a["initrows"], a["initcols"])
@@ -273,7 +299,7 @@ def main(tier: str) -> int:
         return core.replay_file(core.replay_arg(), PROP, "c19", "Requests_Trace")
     out = Outcome(PROP, tier)
     jobs = []
-    for fams in (["ttv"], ["ttm"], ["mttkrp"], ["permute"], ["misc"], ["more"]):
+    for fams in (["ttv"], ["ttm"], ["mttkrp"], ["permute"], ["misc"], ["more"], ["args"]):
         cfg = ("SPECIFICATION Spec\nCONSTANTS\n Fams = {%s}\nINVARIANT OneClause\n"
                % ", ".join(f'"{f}"' for f in fams))
         jobs.append(dict(module="Requests_Gen", cfg_text=cfg, timeout=3000))
